@@ -767,6 +767,207 @@ def project_records(modules: dict, log: list):
         ast.fix_missing_locations(mod.tree)
 
 
+def _boolean_valued(e) -> bool:
+    if isinstance(e, ast.Constant):
+        return isinstance(e.value, bool)
+    if isinstance(e, ast.Compare):
+        return True
+    if isinstance(e, ast.UnaryOp) and isinstance(e.op, ast.Not):
+        return True
+    if isinstance(e, ast.BoolOp):
+        return all(_boolean_valued(v) for v in e.values)
+    return isinstance(e, ast.Call) and isinstance(e.func, ast.Name) and e.func.id == 'bool' and len(e.args) == 1
+
+
+def first_truthy_chains(modules: dict, log: list):
+    """`next(filter(None, (f(args) for f in (a, b, c))), default)` - "the first alternative that yields something" - is the
+    short-circuit chain `a(args) or b(args) or c(args) or default`; as the iterable of a `for` or the value of an assignment
+    it is written out as  t = a(args); if not t: t = b(args); ...  so that the alternatives stand in statement position
+    (where private helpers can be expanded).  The tuple of callables and the generator may sit in locals that are bound once
+    and used for nothing else."""
+    for mname, mod in modules.items():
+        for fn in [n for n in ast.walk(mod.tree) if isinstance(n, FUNC)]:
+            la = {}
+            for st in _walk_no_nested(fn):
+                if isinstance(st, ast.Assign) and len(st.targets) == 1 and isinstance(st.targets[0], ast.Name):
+                    la.setdefault(st.targets[0].id, []).append(st)
+
+            def once(name):
+                sts = la.get(name, [])
+                n_store = sum(1 for x in ast.walk(fn) if isinstance(x, ast.Name) and x.id == name and not isinstance(x.ctx, ast.Load))
+                n_load = sum(1 for x in ast.walk(fn) if isinstance(x, ast.Name) and x.id == name and isinstance(x.ctx, ast.Load))
+                return sts[0] if len(sts) == 1 and n_store == 1 and n_load == 1 else None
+            hits = []
+            for call in [n for n in ast.walk(fn) if isinstance(n, ast.Call)]:
+                if not (isinstance(call.func, ast.Name) and call.func.id == 'next' and len(call.args) == 2 and not call.keywords):
+                    continue
+                flt, default = call.args
+                if not (isinstance(flt, ast.Call) and isinstance(flt.func, ast.Name) and flt.func.id == 'filter' and
+                        len(flt.args) == 2 and isinstance(flt.args[0], ast.Constant) and flt.args[0].value is None):
+                    continue
+                gen, drop = flt.args[1], []
+                if isinstance(gen, ast.Name):
+                    st = once(gen.id)
+                    if st is None:
+                        continue
+                    drop.append(st)
+                    gen = st.value
+                if not (isinstance(gen, ast.GeneratorExp) and len(gen.generators) == 1 and not gen.generators[0].ifs and
+                        isinstance(gen.generators[0].target, ast.Name) and isinstance(gen.elt, ast.Call) and
+                        isinstance(gen.elt.func, ast.Name) and gen.elt.func.id == gen.generators[0].target.id and
+                        all(_pure(a) for a in gen.elt.args) and not gen.elt.keywords):
+                    continue
+                seq = gen.generators[0].iter
+                if isinstance(seq, ast.Name):
+                    st = once(seq.id)
+                    if st is None:
+                        continue
+                    drop.append(st)
+                    seq = st.value
+                if not (isinstance(seq, (ast.Tuple, ast.List)) and seq.elts and all(_pure(e) for e in seq.elts)):
+                    continue
+                alts = [ast.Call(func=clone(e), args=[clone(a) for a in gen.elt.args], keywords=[]) for e in seq.elts]
+                hits.append((call, alts + [clone(default)], drop))
+            for call, operands, drop in hits:
+                # statement that holds the call: a `for` whose iterable it is, or an assignment whose value it is
+                done = False
+                for parent in ast.walk(fn):
+                    for fld in ('body', 'orelse', 'finalbody'):
+                        lst = getattr(parent, fld, None)
+                        if not isinstance(lst, list):
+                            continue
+                        for i, st in enumerate(lst):
+                            holder = (isinstance(st, ast.For) and st.iter is call) or \
+                                     (isinstance(st, ast.Assign) and st.value is call)
+                            if not holder:
+                                continue
+                            tmp = '_first_truthy' if isinstance(st, ast.For) else None
+                            tgt = [ast.Name(id=tmp, ctx=ast.Store())] if tmp else clone(st.targets)
+                            load = ast.Name(id=tmp, ctx=ast.Load()) if tmp else None
+                            seqs = [ast.Assign(targets=tgt, value=operands[0], type_comment=None)]
+                            for op in operands[1:]:
+                                test = ast.UnaryOp(op=ast.Not(), operand=clone(tgt[0]))
+                                for x in ast.walk(test):
+                                    if isinstance(x, (ast.Name, ast.Attribute, ast.Subscript)):
+                                        x.ctx = ast.Load()
+                                seqs.append(ast.If(test=test, body=[ast.Assign(targets=clone(tgt), value=op, type_comment=None)],
+                                                   orelse=[]))
+                            if isinstance(st, ast.For):
+                                st.iter = load
+                                lst[i:i] = seqs
+                            else:
+                                lst[i:i + 1] = seqs
+                            for s_ in seqs:
+                                ast.copy_location(s_, st)
+                                ast.fix_missing_locations(s_)
+                            done = True
+                            break
+                        if done:
+                            break
+                    if done:
+                        break
+                if done:
+                    for parent in ast.walk(fn):
+                        for fld in ('body', 'orelse', 'finalbody'):
+                            lst = getattr(parent, fld, None)
+                            if isinstance(lst, list):
+                                for d in drop:
+                                    if d in lst:
+                                        lst[lst.index(d)] = ast.copy_location(ast.Pass(), d)
+                    log.append(f'first-match chain {mname}.{fn.name}: next(filter(None, ...)) over {len(operands) - 1} '
+                               f'alternatives written out')
+        ast.fix_missing_locations(mod.tree)
+
+
+def decision_tables(modules: dict, log: list):
+    """A module-level dict whose keys are tuples of booleans (a decision table) that a function indexes with a local tuple of
+    boolean-valued expressions:   K = (bool(a), b is not None);  if K not in D: raise ..;  x = D[K]
+    is rewritten to the if / elif chain it abbreviates (`K not in D` becomes the disjunction of the combinations that are
+    missing from the table).  Only when K is bound once and used in no other way."""
+    import itertools
+    for mname, mod in modules.items():
+        tables = {}
+        for name, v in _once_bound(mod.tree.body).items():
+            if isinstance(v, ast.Dict) and v.keys and all(
+                    isinstance(k, ast.Tuple) and k.elts and all(isinstance(x, ast.Constant) and isinstance(x.value, bool)
+                                                                for x in k.elts) for k in v.keys) and \
+                    all(_is_const(x) for x in v.values) and len({len(k.elts) for k in v.keys}) == 1 and len(v.keys[0].elts) <= 3:
+                tables[name] = {tuple(x.value for x in k.elts): val for k, val in zip(v.keys, v.values)}
+        if not tables:
+            continue
+        for fn in [n for n in ast.walk(mod.tree) if isinstance(n, FUNC)]:
+            for kst in [n for n in _walk_no_nested(fn) if isinstance(n, ast.Assign)]:
+                if not (len(kst.targets) == 1 and isinstance(kst.targets[0], ast.Name) and isinstance(kst.value, ast.Tuple)
+                        and kst.value.elts and all(_boolean_valued(e) for e in kst.value.elts)):
+                    continue
+                kname, exprs = kst.targets[0].id, kst.value.elts
+                stores = [n for n in ast.walk(fn) if isinstance(n, ast.Name) and n.id == kname and not isinstance(n.ctx, ast.Load)]
+                loads = [n for n in ast.walk(fn) if isinstance(n, ast.Name) and n.id == kname and isinstance(n.ctx, ast.Load)]
+                if len(stores) != 1 or not loads:
+                    continue
+                # classify every use
+                uses = []
+                for parent in ast.walk(fn):
+                    if isinstance(parent, ast.Compare) and len(parent.ops) == 1 and isinstance(parent.ops[0], (ast.In, ast.NotIn)) \
+                            and isinstance(parent.left, ast.Name) and parent.left.id == kname and \
+                            isinstance(parent.comparators[0], ast.Name) and parent.comparators[0].id in tables:
+                        uses.append(('member', parent, parent.comparators[0].id))
+                    if isinstance(parent, ast.Assign) and isinstance(parent.value, ast.Subscript) and \
+                            isinstance(parent.value.value, ast.Name) and parent.value.value.id in tables and \
+                            isinstance(parent.value.slice, ast.Name) and parent.value.slice.id == kname:
+                        uses.append(('lookup', parent, parent.value.value.id))
+                if len(uses) != len(loads) or len({t for _k, _p, t in uses}) != 1:
+                    continue
+                table = tables[uses[0][2]]
+                n = len(exprs)
+                if any(len(k) != n for k in table):
+                    continue
+
+                def lit(e, want):
+                    if isinstance(e, ast.Call) and isinstance(e.func, ast.Name) and e.func.id == 'bool':
+                        e = e.args[0]
+                    e = clone(e)
+                    return e if want else ast.UnaryOp(op=ast.Not(), operand=e)
+
+                def match(key):
+                    parts = [lit(e, w) for e, w in zip(exprs, key)]
+                    return parts[0] if len(parts) == 1 else ast.BoolOp(op=ast.And(), values=parts)
+
+                def any_of(keys):
+                    if not keys:
+                        return ast.Constant(value=False)
+                    ms = [match(k) for k in keys]
+                    return ms[0] if len(ms) == 1 else ast.BoolOp(op=ast.Or(), values=ms)
+                missing = [c for c in itertools.product((True, False), repeat=n) if c not in table]
+                for kind, node, _t in uses:
+                    if kind == 'member':
+                        positive = isinstance(node.ops[0], ast.In)
+                        new = any_of(list(table)) if positive else any_of(missing)
+                        for parent in ast.walk(fn):
+                            for fld, val in ast.iter_fields(parent):
+                                if val is node:
+                                    setattr(parent, fld, ast.copy_location(new, node))
+                                elif isinstance(val, list) and any(v is node for v in val):
+                                    setattr(parent, fld, [ast.copy_location(new, node) if v is node else v for v in val])
+                    else:
+                        chain = None
+                        raise_ = ast.Raise(exc=ast.Call(func=ast.Name(id='KeyError', ctx=ast.Load()),
+                                                        args=[ast.Name(id=kname, ctx=ast.Load())], keywords=[]), cause=None)
+                        orelse = [raise_]
+                        for key in reversed(list(table)):
+                            asg = ast.Assign(targets=clone(node.targets), value=clone(table[key]), type_comment=None)
+                            chain = ast.If(test=match(key), body=[asg], orelse=orelse)
+                            orelse = [chain]
+                        for parent in ast.walk(fn):
+                            for fld in ('body', 'orelse', 'finalbody'):
+                                lst = getattr(parent, fld, None)
+                                if isinstance(lst, list) and node in lst:
+                                    lst[lst.index(node)] = ast.copy_location(chain, node)
+                        ast.fix_missing_locations(chain)
+                log.append(f'decision table {mname}.{fn.name}: {uses[0][2]}[{kname}] written out as an if / elif chain')
+        ast.fix_missing_locations(mod.tree)
+
+
 # ----------------------------------------------------------------------------------------------------- 2. inlining
 class _Bail(Exception):
     pass
